@@ -34,15 +34,19 @@ from rdflib.plugins.stores.sparqlstore import SPARQLUpdateStore  # noqa: E402
 
 TRUSTED = [
     "Coq 8.16.1 kernel and standard library",
-    "hand-written model coq/Remote/Model.v of SPARQLStore/SPARQLUpdateStore (requests as the algebra they denote; "
-    "tied to the source only by this correspondence run)",
+    "hand-written models coq/Remote/Model.v (requests as algebra, edit queue), coq/Remote/Text.v (request AST, printer = exact "
+    "wire text, denotation) and coq/Remote/NamedGraph.v (character-level BLOCK_FINDING_PATTERN scanner, _insert_named_graph loop, "
+    "_inject_prefixes, VALUES injection) of SPARQLStore/SPARQLUpdateStore - tied to the source only by the three correspondence suites",
     "the loopback endpoint in harness/c20.py: Python http.server, rdflib's own SPARQL query/update engine and Memory store "
     "as the evaluator (C04/C08/C10 are the checks of that engine), its own result writers (SPARQL XML/JSON), CREATE GRAPH "
     "handled by the harness because rdflib's evalCreate always raises",
-    "query/update TEXT generation (_node_to_sparql/n3 escaping, _inject_prefixes, _insert_named_graph regex rewriting, VALUES "
-    "injection, ';' joining), the HTTP layer (urllib, GET/POST/POST_FORM) and the XML/JSON result parsers are exercised "
-    "end to end but not modelled: conformance only",
-    "structural term numbering harness/terms.py + the extra literal pool in harness/c20.py",
+    "that the printed request text is READ by an endpoint as the AST it was printed from (no SPARQL parser is modelled: the "
+    "printer is not proved injective; the remote suite observes the endpoint's dataset after rdflib's parser read the text)",
+    "term escaping inside the text (n3(), kept symbolic: C07's theorems), the HTTP layer (urllib, GET/POST/POST_FORM), Python's re "
+    "engine agreeing with the modelled reading of the four regexes, and the XML/JSON result parsers (C16_xml_result, C16_json_result, "
+    "C16_xml_term, C16_json_term are the theorems about that code): exercised end to end, not modelled here",
+    "structural term numbering harness/terms.py + the extra literal pool in harness/c20.py; the greedy tokenizer that turns the "
+    "received text into characters + symbolic terms",
 ]
 ASSUMPTIONS = [
     "context=None and the graph <urn:x-rdflib:default> both mean the endpoint's default graph (documented behaviour of the store)",
@@ -53,6 +57,10 @@ ASSUMPTIONS = [
     "whole: the call that sent it raises, the endpoint is unchanged, the queue is empty afterwards (specified so, and "
     "what the repaired commit() does)",
     "_edits = None and _edits = [] are identified in the model (they are indistinguishable through the API)",
+    "context_aware=True and sparql11=True (the defaults); LIMIT/OFFSET/ORDERBY attributes on the context and Variable nodes in "
+    "patterns are not exercised; returnFormat xml and json only (csv/tsv answers do not carry term types)",
+    "user-supplied update texts in the rewrite suite are arbitrary character strings (mostly not SPARQL): the rewriting functions are "
+    "total string functions and are compared as such; at most one prefix binding (the order of several is a Python set order)",
     "falsy_ids of Model.v (only used by the lemma about the pre-fix contexts()) is the set of falsy pool terms (asserted at import)",
 ]
 RULE = ("histories of 2-12 store operations over a vocabulary of 4 subjects x 2 predicates x ~38 objects (falsy literals, long doubles / decimals / float / big integers "
@@ -62,7 +70,9 @@ RULE = ("histories of 2-12 store operations over a vocabulary of 4 subjects x 2 
         "flavour (rdflib Dataset / generic) x API route (store, Graph, Dataset) x constructor kwargs (none / params= / headers= / "
         "both) x Content-Type of the answers (with / without charset parameter, other case, quoted); reads hop between graphs, 8% of the slots are add/remove/add (or remove/add/remove) runs on one triple, updates "
         "the endpoint rejects occur in 30% of the histories; distinct by full case content, non-trivial = at least one write "
-        "and one read")
+        "and one read.  wire suite: the same histories restricted to the operations whose text the store composes; rewrite suite: "
+        "user texts from a fragment grammar (nested blocks, short and long strings with braces/quotes/escapes, IRIs, comments, "
+        "unterminated strings, unbalanced braces, WHERE in several spellings, non-ASCII blanks) x prefix x graph x initBindings")
 
 # ---------------------------------------------------------------- terms
 EXTRA = [
@@ -125,6 +135,37 @@ def term_id(t):
     return POOL_ID.get(tkey(t), 999)
 
 
+def _piece_table():
+    tab = [(t.n3(), ["T", i]) for i, t in POOL.items()] + [(n.n3(), ["G", g]) for g, n in GNAMES.items()]
+    tab.sort(key=lambda x: -len(x[0]))
+    return tab
+
+
+def text_pieces(txt):
+    """request text -> pieces: the n3 form of a pool term / graph name is one symbolic piece (longest match first),
+    everything else stays characters; adjacent characters are one run"""
+    out, run, i = [], [], 0
+    tab = _PIECES
+    while i < len(txt):
+        for n3, tok in tab:
+            if txt.startswith(n3, i):
+                if run:
+                    out.append(["S", run])
+                    run = []
+                out.append(tok)
+                i += len(n3)
+                break
+        else:
+            run.append(ord(txt[i]))
+            i += 1
+    if run:
+        out.append(["S", run])
+    return out
+
+
+_PIECES = _piece_table()
+
+
 def ident(g):
     """client-side identifier of graph g (0 = rdflib's default graph IRI)"""
     return DATASET_DEFAULT_GRAPH_ID if g == 0 else GNAMES[g]
@@ -142,6 +183,7 @@ class Endpoint:
     def __init__(self):
         self.backend = None
         self.ct = 0
+        self.log = []  # every request as received: [kind, default-graph-uri, text]
         self.alias = True
         self.requests = 0
         self.errors = []
@@ -341,6 +383,7 @@ class _Handler(BaseHTTPRequestHandler):
     def _query(self, text, qs):
         ep = self.server.endpoint
         ep.requests += 1
+        ep.log.append(["Q", (qs.get("default-graph-uri") or [None])[0], text])
         try:
             if text is None:
                 raise ValueError("no query")
@@ -361,6 +404,7 @@ class _Handler(BaseHTTPRequestHandler):
     def _update(self, text, qs):
         ep = self.server.endpoint
         ep.requests += 1
+        ep.log.append(["U", None, text])
         try:
             ep.run_update(text)
             self._reply(200, "text/plain", b"ok")
@@ -416,7 +460,7 @@ class C20(Suite):
     obs_ty = "list step_obs"
     corr = ("SPARQLStore.triples/__len__/contexts/query/_is_contextual, SPARQLUpdateStore.add/addN/remove/update/add_graph/"
             "remove_graph/commit/rollback/_transaction, SPARQLConnector.query/update")
-    quick_n = 500
+    quick_n = 400
     thorough_n = 10000
     timeout_s = 20.0
 
@@ -553,6 +597,7 @@ class C20(Suite):
         ep = endpoint()
         ep.reset(case["alias"], case["init"], case["names"])
         ep.ct = case.get("ct", 0)
+        ep.log = []
         kw = {}
         if case.get("kw", 0) & 1:
             kw["params"] = {"x-tenant": "t 1&2"}
@@ -654,7 +699,9 @@ class C20(Suite):
             except Exception:  # noqa: BLE001
                 ans = ["raised"]
             quads, names = ep.content()
-            obs.append([quads, names, ans])
+            obs.append([quads, names, ans, [[k, None if dg is None else self._client_gid(case["alias"], URIRef(dg)),
+                                             text_pieces(txt)] for k, dg, txt in ep.log]])
+            ep.log = []
         return obs
 
     @staticmethod
@@ -775,7 +822,7 @@ class C20(Suite):
 
     def coq_obs(self, obs):
         out = []
-        for quads, names, ans in obs:
+        for quads, names, ans in (s[:3] for s in obs):
             if ans[0] == "none":
                 a = "ANone"
             elif ans[0] == "raised":
@@ -863,4 +910,167 @@ class C20(Suite):
                        "ops": [list(o) for o in seq] + [["commit", "store"]]}
 
 
-SUITES = [C20()]
+def c_text(pieces):
+    out = []
+    for k, v in pieces:
+        out.append("PS " + clist(cN(x) for x in v) if k == "S" else ("PT " if k == "T" else "PG ") + cN(v))
+    return clist(out)
+
+
+class C20Wire(C20):
+    """the request TEXT: what the loopback endpoint receives, character by character, against the printer of the
+    request AST (coq/Remote/Text.v).  Histories of the operations whose text the store composes itself."""
+
+    name = "wire"
+    imports = "From RV Require Import Remote.Text.\nSet Printing Width 100000."
+    obs_ty = "list (list req)"
+    model = "model_wire"
+    oeq = "wire_eqb"
+    spec = "wire_spec"
+    corr = ("SPARQLStore.triples/__len__/contexts (query text, default-graph-uri), SPARQLUpdateStore.add/addN/remove/add_graph/"
+            "remove_graph (statement text), commit (joining), SPARQLConnector.query/update (what is sent)")
+    quick_n = 150
+    thorough_n = 3000
+
+    def gen(self, rng, i):
+        case = C20.gen(self, rng, i)
+        # the Dataset front end binds ~30 default prefixes into the store (PREFIX lines on CREATE/DROP, in set order):
+        # _inject_prefixes is the subject of the "rewrite" suite with explicit bindings, here the route is store/Graph
+        case["ops"] = [[("store" if x == "dataset" else x) for x in o] for o in case["ops"] if o[0] not in ("upd", "bad", "query")]
+        return case
+
+    def coq_obs(self, obs):
+        steps = []
+        for s in obs:
+            reqs = []
+            for k, dg, pieces in (s[3] if len(s) > 3 else []):
+                if k == "Q":
+                    reqs.append("RQuery %s %s" % (copt(dg, cN), c_text(pieces)))
+                else:
+                    reqs.append("RUpdate " + c_text(pieces))
+            steps.append(clist(reqs))
+        return clist(steps)
+
+    def on_timeout(self, case):
+        return []
+
+    def sweep(self):
+        for c in C20.sweep(self):
+            ops = [[("store" if x == "dataset" else x) for x in o] for o in c["ops"] if o[0] not in ("upd", "bad", "query")]
+            yield dict(c, ops=ops)
+
+
+FRAGS = ["INSERT DATA ", "DELETE ", "WHERE ", "where\n", "WHERE\t ", "Where", " ?s ?p ?o . ", "<http://e/a>", "<http://e/b#x>",
+         "<", ">", " ?a < ?b ", '"x"', "'y'", '"a { b"', "'} {'", '"q\\"{"', "'it\\'s }'", '"""long {\n " } """', "'''x''' ",
+         "# c { \n", "# d } \r", "#tail }", "\\{", "\\", "{}", "{ }", "{\n\t}", " ", "\n", '"unterminated {', "'open",
+         "\u00e9", "\u2003", "\u00a0", ";", "GRAPH <urn:x> ", "<http://e/{x}>", "a", ".", "\\\n", "<a b>", "<a|b>",
+         '"""a\n" } x { "b"""', "'''a'b''c } '''", '"""x""""', '"""\\"""{"""', '""""', "'''{", '"" "', '""', '"""""" {',
+         '"""a\\\n}"""']
+
+
+def gen_text(rng, depth=0):
+    parts = []
+    for _ in range(rng.choice([1, 2, 3, 4, 5])):
+        r = rng.random()
+        if r < 0.3 and depth < 3:
+            parts.append("{" + gen_text(rng, depth + 1) + "}")
+        elif r < 0.33:
+            parts.append(rng.choice("{}"))  # unbalanced
+        else:
+            parts.append(rng.choice(FRAGS))
+    return "".join(parts)
+
+
+class C20Rewrite(Suite):
+    """what SPARQLUpdateStore.update()/SPARQLStore.query() make of a user-supplied text: _inject_prefixes,
+    _insert_named_graph (BLOCK_FINDING_PATTERN + the level/pos loop), VALUES injection - compared character by
+    character with coq/Remote/NamedGraph.v; the text is taken from what the loopback endpoint receives."""
+
+    name = "rewrite"
+    imports = "From RV Require Import Remote.NamedGraph.\nSet Printing Width 100000."
+    case_ty = "rcase"
+    obs_ty = "(str * str)"
+    model = "model_rewrite"
+    oeq = "rewrite_eqb"
+    spec = "rewrite_spec"
+    corr = "SPARQLUpdateStore.update/_insert_named_graph/BLOCK_FINDING_PATTERN/where_pattern, SPARQLStore.query/_inject_prefixes"
+    quick_n = 250
+    thorough_n = 5000
+    timeout_s = 20.0
+
+    def gen(self, rng, i):
+        r = rng.random()
+        if r < 0.25:  # realistic updates with pool terms inline
+            t = [rng.choice(SUBJ), rng.choice(PRED), rng.choice(OBJ)]
+            text = rng.choice(["INSERT DATA { %s }", "DELETE DATA {%s}", "DELETE WHERE { %s . }",
+                               "DELETE { %s } WHERE { %s }", "INSERT { %s } WHERE { ?s ?p ?o . FILTER(?o < 3) } # {\n",
+                               "DELETE { GRAPH <urn:g:1> { %s } } WHERE { { %s } UNION { ?s ?p ?o } }"]).replace("%s", pat_text(t))
+        else:
+            text = gen_text(rng)
+        prefixes = [] if rng.random() < 0.6 else [rng.choice([["ex", "http://e/"], ["", "urn:x:"], ["\u00e9", "http://e/\u00e9#"]])]
+        graph = None if rng.random() < 0.2 else rng.choice(list(GNAMES))
+        nb = rng.choice([0, 0, 1, 2])
+        vs = rng.sample(["s", "p", "o", "x_1"], nb)
+        terms = [rng.choice(OBJ) for _ in vs]
+        return {"text": text, "prefixes": prefixes, "graph": graph, "vars": vs, "terms": terms}
+
+    def run_impl(self, case):
+        ep = endpoint()
+        ep.reset(True, [], [])
+        ep.log = []
+        st = SPARQLUpdateStore(ep.url, ep.url, method="POST", autocommit=True)
+        ns = {k: URIRef(v) for k, v in case["prefixes"]}
+        ib = {v: term(t) for v, t in zip(case["vars"], case["terms"])}
+        out = []
+        try:
+            st.update(case["text"], initNs=ns, initBindings=ib, queryGraph=None if case["graph"] is None else ident(case["graph"]))
+        except Exception:  # noqa: BLE001  (the endpoint rejects most of these texts; what it received is what counts)
+            pass
+        us = [t for k, _, t in ep.log if k == "U"]
+        out.append(us[-1] if us else None)
+        ep.log = []
+        try:
+            st.query(case["text"], initNs=ns, initBindings=ib)
+        except Exception:  # noqa: BLE001
+            pass
+        qs = [t for k, _, t in ep.log if k == "Q"]
+        out.append(qs[-1] if qs else None)
+        ep.log = []
+        return out
+
+    def coq_case(self, case):
+        from .core import cstr
+        g = None if case["graph"] is None else ident(case["graph"]).n3()
+        return ("{| r_text := %s; r_prefixes := %s; r_graph := %s; r_vars := %s; r_terms := %s |}" % (
+            cstr(case["text"]), clist(ctuple(cstr(k), cstr(v)) for k, v in case["prefixes"]), copt(g, cstr),
+            clist(cstr(v) for v in case["vars"]), clist(cstr(term(t).n3()) for t in case["terms"])))
+
+    def coq_obs(self, obs):
+        from .core import cstr
+        return ctuple(*(cstr(x if x is not None else "\x00<nothing received>") for x in (obs + [None, None])[:2]))
+
+    def on_timeout(self, case):
+        return [None, None]
+
+    def nontrivial(self, case, obs):
+        return "{" in case["text"]
+
+    def features(self, case, obs):
+        t = case["text"]
+        return {"with_graph": int(case["graph"] is not None), "with_prefix": int(bool(case["prefixes"])),
+                "with_bindings": int(bool(case["vars"])), "has_string": int('"' in t or "'" in t), "has_comment": int("#" in t),
+                "nested": int("{" in t and t.count("{") > 1), "balanced": int(t.count("{") == t.count("}"))}
+
+    def shrink(self, case):
+        t = case["text"]
+        for i in range(len(t)):
+            yield dict(case, text=t[:i] + t[i + 1:])
+        if case["prefixes"]:
+            yield dict(case, prefixes=[])
+        if case["vars"]:
+            yield dict(case, vars=case["vars"][1:], terms=case["terms"][1:])
+        if case["graph"] is not None:
+            yield dict(case, graph=None)
+
+
+SUITES = [C20(), C20Wire(), C20Rewrite()]
